@@ -556,6 +556,21 @@ where
             trace!(%addr, pcap_text, "Received message");
         }
 
+        // Only the first `bytes_read` octets of the buffer were received. The
+        // rest of it (whatever the buffer source filled it with) is not part
+        // of the datagram and must not be parsed as if it were: zero padding
+        // reads as root name questions and records as soon as the header
+        // counts announce more than the datagram holds, and a datagram
+        // shorter than a DNS header would be taken for a message.
+        let buf = if buf.as_ref().len() == bytes_read {
+            buf
+        } else {
+            let mut msg = self.buf.create_sized(bytes_read);
+            msg.as_mut()[..bytes_read]
+                .copy_from_slice(&buf.as_ref()[..bytes_read]);
+            msg
+        };
+
         match Message::from_octets(buf) {
             Err(err) => {
                 // TO DO: Count this event?
